@@ -26,6 +26,7 @@ META = {
 
 
 ENUM_NAMES = ('ETYPE', 'Status', 'quality_t')
+HDR_KEYS = ('mjd', 'struct', 'enum', 'typedef', 'symbols', 'char', 'id', 'STRUCT')
 
 
 def _rec(n, dtype):
@@ -244,6 +245,37 @@ def ob_misc(case):
                 t = ymod.read_table_yanny('/d/t.par', 'tab')
                 ctx.require(z3.And(cell_eq(t.data['name'][1], sv), cell_eq(t.data['id'][1], BV(6, 'i4'))), 'Table entry points: cells equal', d)
                 ctx.require(text_eq(t.meta['origin'], rec.meta['origin']), 'Table entry points: meta equal', d)
+            elif case in ('header-keys', 'header-keys-table'):
+                # the keyword is any word that is not a table name (choice made by the solver), among them the words the
+                # format and the parser use for their own bookkeeping
+                key = HDR_KEYS[int(ctx.int('hdr_key', 0, len(HDR_KEYS) - 1))]
+                d = dict(d, key=key)
+                ctx.add(z3.And(ch[0] != ord('#'), ch[0] != 32, ch[0] != 9))
+                hv = S('v', ch)
+                if case == 'header-keys':
+                    rec = _rec(1, [('id', 'i4'), ('name', 'S3')])
+                    _set(rec, 'id', 0, BV(1, 'i4'))
+                    _set(rec, 'name', 0, b'q')
+                    par = ymod.write_ndarray_to_yanny('/d/h.par', rec, structnames='mystruct', hdr={key: hv, 'other': 7})
+                    back = ymod.yanny('/d/h.par')
+                    for obj, what in ((par, 'writer object'), (back, 'fresh read')):
+                        ctx.require(list(obj.pairs()) == [key, 'other'], what + ': header keywords, in the order supplied', dict(d, got=[str(k) for k in obj.pairs()]))
+                        ctx.require(text_eq(obj[key], hv) if key in obj.keys() else False, what + ': header value equals the text form of what was supplied', d)
+                        ctx.require(list(obj.tables()) == ['MYSTRUCT'], what + ': table names upper-cased', d)
+                else:
+                    class FakeTable(object):
+                        def __init__(self, data):
+                            self.data = data
+                            self.meta = None
+                    ymod.Table = FakeTable
+                    rec = SymTable(1, np.dtype([('id', 'i4'), ('name', 'S3')]))
+                    _set(rec, 'id', 0, BV(1, 'i4'))
+                    _set(rec, 'name', 0, b'q')
+                    rec.meta = {key: hv, 'other': 7}
+                    ymod.write_table_yanny(rec, '/d/t.par', tablename='tab')
+                    t = ymod.read_table_yanny('/d/t.par', 'tab')
+                    ctx.require(sorted(t.meta.keys()) == sorted([key, 'other']), 'Table entry points: meta keywords', dict(d, got=[str(k) for k in t.meta.keys()]))
+                    ctx.require(key in t.meta and text_eq(t.meta[key], hv), 'Table entry points: meta equal', d)
             elif case == 'exists':
                 rec = _rec(1, [('id', 'i4'), ('name', 'S3')])
                 _set(rec, 'name', 0, sv)
@@ -294,7 +326,7 @@ def obligations(tier, seed):
                 if q and nd == 2 and neg:
                     continue
                 obs.append(ob_ints(kind, neg, nd))
-    for case in ('zero-rows', 'enum', 'table', 'exists', 'unsupported'):
+    for case in ('zero-rows', 'enum', 'table', 'header-keys', 'header-keys-table', 'exists', 'unsupported'):
         obs.append(ob_misc(case))
     return obs
 
@@ -371,6 +403,23 @@ def replay(rec):
             write_ndarray_to_yanny(fn, rec_, structnames='en', enums={'kind': (ename, ('ALPHA', 'BETA', 'GAMMA'))})
             back = yanny(fn)          # an exception here = reproduced for 'exception:' labels (harness.replay)
             return bool(back['EN']['kind'].tolist() != [b'ALPHA', b'BETA'] or not back.isenum('EN', 'kind') or back.isenum('EN', 'name'))
+        if d.get('fn') == 'misc' and d.get('case') in ('header-keys', 'header-keys-table'):
+            key = d.get('key', HDR_KEYS[int(inp.get('hdr_key', 0))])
+            hv = 'v' + chr(int(inp.get('m_0', 65)))
+            rec_ = np.zeros(1, dtype=[('id', 'i4'), ('name', 'S3')])
+            rec_['id'], rec_['name'] = 1, b'q'
+            if d['case'] == 'header-keys':
+                par = write_ndarray_to_yanny(fn, rec_, structnames='mystruct', hdr={key: hv, 'other': 7})
+                back = yanny(fn)
+                return bool(list(par.pairs()) != [key, 'other'] or list(back.pairs()) != [key, 'other'] or back[key] != hv or par[key] != hv
+                            or list(back.tables()) != ['MYSTRUCT'])
+            from astropy.table import Table
+            from pydl.pydlutils.yanny import write_table_yanny, read_table_yanny
+            t = Table(rec_)
+            t.meta = {key: hv, 'other': 7}
+            write_table_yanny(t, fn, tablename='tab')
+            t2 = read_table_yanny(fn, 'tab')
+            return bool(sorted(t2.meta.keys()) != sorted([key, 'other']) or t2.meta[key] != hv)
         if d.get('fn') == 'ints':
             kind = d['kind']
 
